@@ -92,7 +92,7 @@ def _label_nan_start(vs, res, net, before, ref, desc, conv, toks, prev):
         if key(v) in emu:
             v["tokens"] = list(emu[key(v)]["tokens"])
         else:
-            v["tokens"] = list(v["tokens"]) + ["explained=init_results_nan_start"]
+            v["tokens"] = [t for t in v["tokens"] if not t.startswith("explained=")] + ["explained=init_results_nan_start"]
         out.append(v)
     return out
 
